@@ -1,5 +1,6 @@
 """C01: a line is reported iff the pattern matches that line."""
 import json
+import os
 
 import regexrender as rr
 import rgrun
@@ -64,7 +65,7 @@ def run(chk, cfg, tier, variants):
             tname = "nul" if o["nul"] else "crlf" if o["crlf"] else "lf"
             pa = pattern_args(r)
             for v in variants:
-                if tier == "quick" and v in ("json", "reader") and i % 4:
+                if tier == "quick" and v in ("json", "reader") and i % 4 and not o["nul"]:
                     continue
                 f = files[tname + ("_noterm" if v == "noterm" else "")]
                 base = ["--no-config", "--color", "never", "-j1"]
@@ -178,7 +179,7 @@ def main(tier):
                 "catalogue lines; distinct by (patterns, options).")
     chk.assumptions = ["bounded grammar and symbol alphabet (specs/regex/MCLineMatch.tla, Syntax.tla)",
                        "haystack anchors \\A \\z excluded as in the property"]
-    cfgs = ["C01_quick"] if tier == "quick" else ["C01_deep"]
+    cfgs = [os.environ.get("C01_CFG")] if os.environ.get("C01_CFG") else ["C01_quick"] if tier == "quick" else ["C01_deep"]
     for c in cfgs:
         run(chk, c, tier, ["mmap", "reader", "passthru", "json", "noterm"])
     chk.exhaustive = True
